@@ -553,7 +553,7 @@ class C08(PropertyCheck):
     extra_modules = ["PynguinModel.Lemmas.Exclusions"]
     driver = "Driver/C08.lean"
     n_quick = 80
-    n_thorough = 1500
+    n_thorough = 900   # 1500 took 23 min under load
     n_search = 400
     rule = ("one case = one generated module with random exclusion markers + names; non-trivial = at least one "
             "line/branch/code-object goal of the exclusion-free run is removed by the configuration; distinct = "
